@@ -36,7 +36,7 @@ fn c15_q_single_ref() {
 /// "A1+C2"
 #[kani::proof]
 #[kani::unwind(5)]
-fn c15_t_two_refs() {
+fn c15_x_two_refs() {
     let (dr, dc) = any_offset();
     let got = replace_cell_names("A1+C2", (dr, dc));
     let mut e = TBuf::new();
@@ -51,7 +51,7 @@ fn c15_t_two_refs() {
 /// "$B$3" is fully absolute: unchanged
 #[kani::proof]
 #[kani::unwind(5)]
-fn c15_t_absolute_ref() {
+fn c15_x_absolute_ref() {
     let (dr, dc) = any_offset();
     let got = replace_cell_names("$B$3", (dr, dc));
     let mut e = TBuf::new();
@@ -62,7 +62,7 @@ fn c15_t_absolute_ref() {
 /// quoted text that looks like a cell is reproduced unchanged; the reference after it moves
 #[kani::proof]
 #[kani::unwind(5)]
-fn c15_t_quoted_text() {
+fn c15_x_quoted_text() {
     let (dr, dc) = any_offset();
     let got = replace_cell_names("\"A1\"&B2", (dr, dc));
     let mut e = TBuf::new();
@@ -75,7 +75,7 @@ fn c15_t_quoted_text() {
 /// function name without digits and an area: "SUM(A1:B2)"
 #[kani::proof]
 #[kani::unwind(5)]
-fn c15_t_function_area() {
+fn c15_x_function_area() {
     let (dr, dc) = any_offset();
     let got = replace_cell_names("SUM(A1:B2)", (dr, dc));
     let mut e = TBuf::new();
@@ -92,7 +92,7 @@ fn c15_t_function_area() {
 /// mixed reference "$B3": column absolute, row relative -> "$B" + (3+dr)
 #[kani::proof]
 #[kani::unwind(5)]
-fn c15_t_mixed_col_absolute() {
+fn c15_x_mixed_col_absolute() {
     let (dr, dc) = any_offset();
     let got = replace_cell_names("$B3", (dr, dc));
     let mut e = TBuf::new();
@@ -104,7 +104,7 @@ fn c15_t_mixed_col_absolute() {
 /// mixed reference "B$3": column relative, row absolute -> (B+dc) + "$3"
 #[kani::proof]
 #[kani::unwind(5)]
-fn c15_t_mixed_row_absolute() {
+fn c15_x_mixed_row_absolute() {
     let (dr, dc) = any_offset();
     let got = replace_cell_names("B$3", (dr, dc));
     let mut e = TBuf::new();
@@ -116,7 +116,7 @@ fn c15_t_mixed_row_absolute() {
 /// function name with a digit: "LOG10(A1)" -> only A1 moves
 #[kani::proof]
 #[kani::unwind(5)]
-fn c15_t_function_with_digit() {
+fn c15_x_function_with_digit() {
     let (dr, dc) = any_offset();
     let got = replace_cell_names("LOG10(A1)", (dr, dc));
     let mut e = TBuf::new();
@@ -130,7 +130,7 @@ fn c15_t_function_with_digit() {
 /// sheet-qualified reference "Tab1!A1": the sheet name stays
 #[kani::proof]
 #[kani::unwind(5)]
-fn c15_t_sheet_qualified() {
+fn c15_x_sheet_qualified() {
     let (dr, dc) = any_offset();
     let got = replace_cell_names("Tab1!A1", (dr, dc));
     let mut e = TBuf::new();
